@@ -24,9 +24,14 @@ pub enum Route {
     /// then the sibling, then the second piece is put in with insert_before(sibling, piece) and consolidation has to
     /// merge it into the first; a text node behind a non-text sibling likewise with insert_after
     TextPieces,
+    /// like BottomUp, but one non-text child per element is first put in the wrong place - in the middle of an earlier
+    /// text sibling, which is appended in two halves around it - and moved to its real place once its siblings exist,
+    /// with insert_after, insert_before or append used as a move; the seam it leaves has to close and the node has to
+    /// arrive where the call says
+    Displaced,
 }
 
-pub const ROUTES: [Route; 8] = [Route::TopDown, Route::BottomUp, Route::Prepend, Route::InsertBefore, Route::AttrsLast, Route::DeclsChildrenAttrs, Route::AttrsDeclsChildren, Route::TextPieces];
+pub const ROUTES: [Route; 9] = [Route::TopDown, Route::BottomUp, Route::Prepend, Route::InsertBefore, Route::AttrsLast, Route::DeclsChildrenAttrs, Route::AttrsDeclsChildren, Route::TextPieces, Route::Displaced];
 
 #[derive(Clone, Copy, Debug, PartialEq, Eq)]
 pub enum AttrStyle {
@@ -48,7 +53,52 @@ pub enum AttrStyle {
 
 pub const STYLES: [AttrStyle; 6] = [AttrStyle::Map, AttrStyle::Node, AttrStyle::Any, AttrStyle::Set, AttrStyle::Redeclare, AttrStyle::Reinsert];
 
+/// One leaf in four (decided by its content) is created with provisional content and then given its real content
+/// through the single-node mutators (text_mut().set / get_mut, comment_mut().set, processing_instruction_mut().set_data /
+/// set_target, element_mut().set_name): "create it now, fill it in later" has to give the same node.
 pub fn new_leaf(xot: &mut Xot, a: &ANode) -> Node {
+    let key = a.text.len() + a.name.local.len() + a.data.as_ref().map_or(0, |d| d.len()) + a.children.len() + a.attrs.len();
+    if key % 4 == 1 {
+        match a.kind {
+            AKind::Text => {
+                let n = xot.new_text("zz-draft");
+                if key % 8 == 1 {
+                    xot.text_mut(n).unwrap().set(a.text.clone());
+                } else {
+                    let s = xot.text_mut(n).unwrap().get_mut();
+                    s.clear();
+                    s.push_str(&a.text);
+                }
+                return n;
+            }
+            AKind::Comment if !a.text.contains("--") => {
+                let n = xot.new_comment("zz-draft");
+                if xot.comment_mut(n).unwrap().set(a.text.clone()).is_ok() {
+                    return n;
+                }
+                let _ = xot.remove(n);
+            }
+            AKind::Pi => {
+                let ns = xot.add_namespace(&a.name.ns);
+                let name = xot.add_name_ns(&a.name.local, ns);
+                let draft = xot.add_name("zz-draft");
+                let n = if key % 8 == 1 { xot.new_processing_instruction(name, None) } else { xot.new_processing_instruction(draft, Some("zz draft ")) };
+                let pi = xot.processing_instruction_mut(n).unwrap();
+                pi.set_data(a.data.clone());
+                let _ = pi.set_target::<String>(name);
+                return n;
+            }
+            AKind::Elem => {
+                let ns = xot.add_namespace(&a.name.ns);
+                let name = xot.add_name_ns(&a.name.local, ns);
+                let draft = xot.add_name("zz-draft");
+                let n = xot.new_element(draft);
+                xot.element_mut(n).unwrap().set_name(name);
+                return n;
+            }
+            _ => {}
+        }
+    }
     match a.kind {
         AKind::Doc => xot.new_document(),
         AKind::Elem => {
@@ -403,6 +453,75 @@ fn build_rec(xot: &mut Xot, a: &ANode, route: Route, style: AttrStyle) -> Result
                     match built.next() {
                         Some(hc) if hc.node == *r => h.children.push(hc),
                         _ => return Err("text pieces: a non-text child is not where it was appended".to_string()),
+                    }
+                }
+            }
+        }
+        Route::Displaced => {
+            let merge = xot.verif_text_consolidation();
+            let n = a.children.len();
+            // j: a text child of two or more characters; i: a later non-text child with at least one sibling between
+            let mut plan: Option<(usize, usize)> = None;
+            if merge {
+                'find: for j in 0..n {
+                    if a.children[j].kind == AKind::Text && a.children[j].text.chars().count() >= 2 {
+                        for i in j + 2..n {
+                            if a.children[i].kind != AKind::Text && a.children[i - 1].kind != AKind::Text {
+                                plan = Some((j, i));
+                                break 'find;
+                            }
+                        }
+                    }
+                }
+            }
+            let mut moved: Option<HTree> = None;
+            let mut built: Vec<Option<HTree>> = Vec::new();
+            for (k, c) in a.children.iter().enumerate() {
+                match plan {
+                    Some((j, i)) if k == j => {
+                        let chars: Vec<char> = c.text.chars().collect();
+                        let cut = chars.len() / 2;
+                        let first: String = chars[..cut].iter().collect();
+                        let second: String = chars[cut..].iter().collect();
+                        let t1 = xot.new_text(&first);
+                        xot.append(node, t1).map_err(|e| format!("append failed: {:?}", e))?;
+                        let hi = build_rec(xot, &a.children[i], route, style)?;
+                        xot.append(node, hi.node).map_err(|e| format!("append failed: {:?}", e))?;
+                        let t2 = xot.new_text(&second);
+                        xot.append(node, t2).map_err(|e| format!("append failed: {:?}", e))?;
+                        moved = Some(hi);
+                        built.push(None);
+                    }
+                    Some((_, i)) if k == i => built.push(None),
+                    _ => {
+                        let hc = build_rec(xot, c, route, style)?;
+                        xot.append(node, hc.node).map_err(|e| format!("append failed: {:?}", e))?;
+                        built.push(if c.kind == AKind::Text { None } else { Some(hc) });
+                    }
+                }
+            }
+            if let (Some((_, i)), Some(hi)) = (plan, moved) {
+                let before = built[i - 1].as_ref().map(|h| h.node).ok_or("displaced: no reference node")?;
+                let after = if i + 1 < n { built[i + 1].as_ref().map(|h| h.node) } else { None };
+                match (a.children[i].name.local.len() + n) % 3 {
+                    0 => xot.insert_after(before, hi.node).map_err(|e| format!("insert_after (move) failed: {:?}", e))?,
+                    1 if after.is_some() => xot.insert_before(after.unwrap(), hi.node).map_err(|e| format!("insert_before (move) failed: {:?}", e))?,
+                    1 | 2 if i + 1 == n => xot.append(node, hi.node).map_err(|e| format!("append (move) failed: {:?}", e))?,
+                    _ => xot.insert_after(before, hi.node).map_err(|e| format!("insert_after (move) failed: {:?}", e))?,
+                }
+                built[i] = Some(hi);
+            }
+            let real: Vec<Node> = xot.children(node).collect();
+            if real.len() != n {
+                return Err(format!("displaced: {} children for {} abstract children", real.len(), n));
+            }
+            for ((c, r), b) in a.children.iter().zip(real.iter()).zip(built.into_iter()) {
+                if c.kind == AKind::Text {
+                    h.children.push(HTree { node: *r, nss: Vec::new(), attrs: Vec::new(), children: Vec::new() });
+                } else {
+                    match b {
+                        Some(hc) if hc.node == *r => h.children.push(hc),
+                        _ => return Err("displaced: a child is not where the calls put it".to_string()),
                     }
                 }
             }
